@@ -245,6 +245,19 @@ func (e *Engine) lookupVSort(s string) types.Type {
 
 // lookupNamed finds a named type by "pkgname.Type".
 func (e *Engine) lookupNamed(name string) types.Type {
+	if strings.HasPrefix(name, "[]") {
+		if et := e.lookupNamed(name[2:]); et != nil {
+			return types.NewSlice(et)
+		}
+		return nil
+	}
+	if !strings.Contains(name, ".") {
+		if o := types.Universe.Lookup(name); o != nil {
+			if tn, ok := o.(*types.TypeName); ok {
+				return tn.Type()
+			}
+		}
+	}
 	i := strings.LastIndex(name, ".")
 	if i < 0 {
 		return nil
